@@ -943,7 +943,7 @@ where
         let inner = Arc::new(RwLock::new(Some(MirroredHashMapInner {
             hm: self.take_initial().unwrap_or_default(),
             complete: self.is_complete(),
-            done: self.is_done(),
+            done: self.is_complete() && self.is_done(),
             error: None,
             max_size,
         })));
